@@ -183,6 +183,7 @@ class Pool:
         self.lock = threading.Lock()
         self.deadline, self.env, self.logdir, self.crash_sig = deadline, env, logdir, crash_sig
         self.nproc = max(1, min(nproc, ncases))
+        self.min_slice = 60.0 if tier == "thorough" else 20.0
 
     def run(self):
         ths = [threading.Thread(target=self._one, args=(i,)) for i in range(self.nproc)]
@@ -208,7 +209,7 @@ class Pool:
             # time slice of this case: the remaining budget is shared among the cases still queued
             now = time.time()
             waves = self.q.qsize() // self.nproc + 1
-            slice_end = now + max(5.0, (self.deadline - now) / waves)
+            slice_end = now + max(self.min_slice, 3.0 * (self.deadline - now) / waves)
             try:
                 proc.stdin.write("%d %d\n" % (c, int(min(max(slice_end, now + 5), max(self.deadline, now + 5)))))
                 proc.stdin.flush()
@@ -506,9 +507,10 @@ def run_built(args, seed, bins, missing_hooks, ovjson, pcfg, t0):
         print("VIOLATION property=%s replay=%s" % (prop, path))
         print("  scenario=%s signature=%s executions=%d\n  %s" % (key, v["signature"], v.get("count", 1), v["message"][:1200].replace("\n", "\n  ")))
         rc = 1
-    print("%s %s: %d executions, %d non-trivial distinct, exhaustive=%s, bound %d/%d, %d violations, %d known findings, %.1fs" % (
-        prop, tier, evaluations, nontriv, cov["exhaustive"], cov["deviation_bound_completed"], cov["deviation_bound_target"],
-        len(seen), len(known_hits), time.time() - t0))
+    bounds = "all deviation bounds completed" if all(a["bound_completed"] >= a["bound_target"] for _, a in per_scen) else \
+        "bounds completed: " + ", ".join("%s %d/%d" % (a["scenario"], a["bound_completed"], a["bound_target"]) for _, a in per_scen)
+    print("%s %s: %d executions, %d non-trivial distinct, exhaustive=%s, %s, %d violations, %d known findings, %.1fs" % (
+        prop, tier, evaluations, nontriv, cov["exhaustive"], bounds, len(seen), len(known_hits), time.time() - t0))
     return rc
 
 
